@@ -446,6 +446,9 @@ func (s *Set) Value(_ context.Context, t *dials.Type) (reflect.Value, error) {
 		}
 	}
 
+	// Value may be called more than once (one Set handed to several
+	// Configs): every call starts from an empty translated value.
+	s.trnslVal.Set(reflect.Zero(s.trnslVal.Type()))
 	s.Flags.Visit(func(f *pflag.Flag) {
 		fieldName, ok := s.flagFieldName[f.Name]
 		if !ok {
